@@ -101,7 +101,7 @@ func (d *tDecoder) Decode(b []byte, base unsafe.Pointer, sd *structDesc, maxdept
 
 		f := sd.GetField(fid)
 		if f == nil || f.Type.WT != tp {
-			n, err := thrift.Binary.Skip(b[i:], thrift.TType(tp))
+			n, err := skipField(b[i:], tp)
 			if err != nil {
 				return i, fmt.Errorf("skip unknown field %d of struct %s err: %w", fid, sd.rt.String(), err)
 			}
@@ -146,6 +146,19 @@ func (d *tDecoder) Decode(b []byte, base unsafe.Pointer, sd *structDesc, maxdept
 		*(*[]byte)(unsafe.Add(base, sd.unknownFieldsOffset)) = ufs.Copy(b)
 	}
 	return i, nil
+}
+
+// skipField skips the value of an unknown field.
+//
+// thrift.TType is int8 and thrift.Binary.Skip indexes its type tables with the type bytes it reads,
+// a corrupted type >= 0x80 of the field or of a nested element makes it panic with index out of range.
+func skipField(b []byte, tp ttype) (n int, err error) {
+	defer func() {
+		if r := recover(); r != nil {
+			n, err = 0, thrift.NewProtocolException(thrift.INVALID_DATA, fmt.Sprintf("unknown data type: %v", r))
+		}
+	}()
+	return thrift.Binary.Skip(b, thrift.TType(tp))
 }
 
 func decodeFixedSizeTypes(t ttype, b []byte, p unsafe.Pointer) int {
